@@ -6,6 +6,8 @@
 mod util;
 mod c01;
 mod c02;
+mod c03;
+mod nutsrec;
 mod c05;
 mod c07;
 mod c08;
@@ -47,6 +49,7 @@ fn main() {
         ("c10", "fault") => c10::fault(rest),
         ("c02", "replay") => c02::replay(rest),
         ("c02", "record") => c02::record(rest),
+        ("c03", "record") => c03::record(rest),
         (p, m) => util::tool_error(&format!("unknown command {p} {m}")),
     }
 }
